@@ -69,6 +69,20 @@ CLAIMS = {
          "requested set while running and nothing after stop, with correct TTL / endpoint option / destination and refresh "
          "gaps; a spec mutant (StopSubscribe overtaking a queued Subscribe) is caught; the monitor judges real histories over "
          "IPv4/IPv6 x UDP/TCP eventgroups and three servers", "DESIGN.md §7 C14", TECH, TRUST),
+ "C16": ("model_checking",
+         "TLC walks the complete decision table of spec/Service.tla (5280 rows, one state per row) and checks the laws of the "
+         "statement on every row (at most one reply, multicast never answered, fire-and-forget never gets a RESPONSE, first "
+         "failing check decides); every row is instantiated on a real SimpleService through message_received and "
+         "datagram_received and TLC compares each recorded reply (destination, echoed ids, type, code, payload) with "
+         "Service!Decision", "DESIGN.md §7 C16",
+         "TLA+ functional specification (decision table) checked exhaustively by TLC; recorded calls of the real code evaluated against it in TLC",
+         "exhaustive over the table; ids / payloads per row are boundary + seeded random; replies decoded with SOMEIPHeader.parse (C01)"),
+ "C17": ("model_checking",
+         "TLC checks SimpleEventgroup of spec/SD.tla (endpoint set, has_clients, initial / explicit / cyclic notification tasks "
+         "with their asyncio hop structure, per-destination session ids) against Mon_C17 for all schedules within bounds and "
+         "catches the as-shipped one-shot-iterable defect; the monitor judges real SimpleService histories (IPv4/IPv6 "
+         "endpoints, notify_once with list / tuple / iterator / generator / dict view, cyclic rounds, refused "
+         "subscriptions, counters next to the wrap); traces validated against SDTrace.tla", "DESIGN.md §7 C17", TECH, TRUST),
 }
 claimed = sorted(CLAIMS)
 m = {"version": 1, "setup_cmd": "./setup.sh",
